@@ -10,9 +10,14 @@ S2  every case is replayed against biotite.structure (displacement/distance/angl
     move_inside_box, coord_to_fraction, fraction_to_coord, vectors_from_unitcell,
     unitcell_from_vectors, remove_pbc, remove_pbc_from_coord, translate, rotate,
     rotate_centered, rotate_about_axis, align_vectors) and compared with TLC's exact values.
-S3  seeded larger lattice systems (<= 20 atoms, 1-3 models, random index arrays) are recorded
-    and re-computed by TLC (specs/C15/Trace.tla; cosines are compared exactly through rational
-    enclosures).
+    The families "shapes" / "index" call displacement / distance / angle / dihedral with operands
+    of EVERY combination of dimensionality ((3,), (n,3), (m,n,3)) and kind (ndarray, Atom /
+    AtomArray / AtomArrayStack) in every argument position, without box, with one box and with
+    per-model boxes, and index_* with every order of the argument positions and every way the
+    box reaches the code (parameter, box attribute, parameter overriding the attribute).
+S3  seeded larger lattice systems (<= 20 atoms, 1-3 models, random index arrays) and calls with
+    operands of random mixed dimensionality / kind / order are recorded and re-computed by TLC
+    (specs/C15/Trace.tla; cosines are compared exactly through rational enclosures).
 """
 
 from __future__ import annotations
@@ -25,7 +30,7 @@ PROPERTY = "C15"
 
 MANIFEST = {
     "technique": "TLA+ specification of biotite's geometry / box / transform functions on the integer lattice (specs/C15, specs/lib/Lattice.tla) model-checked by TLC; TLC's exact values for every enumerated case replayed against the real functions; recorded larger executions re-computed by TLC",
-    "level_text": "TLC enumerates four-atom configurations with all bond vectors in {-1,0,1}^3 (wrapped across eleven periodic boxes by lattice shifts), all displacements in a cube against twelve boxes (orthorhombic, rotated-orthogonal, left-handed, heavily skewed, triclinic with every zero/non-zero combination of the three tilts), unit cells with cosines 0,+-1/2, wrapped molecules (chains, stars, interleaved and multiple molecules; every atom shifted independently, and every subset of atoms lying beyond each of the six faces of cubic, anisotropic and elongated boxes whose long axis is a, b or c) and point sets under translate/rotate/rotate_centered/rotate_about_axis/align_vectors, and checks: code-shaped = textbook definitions, invariance under the 24 lattice rotations x translations, sign flip of the dihedral under the 24 rotoreflections, periodic displacement = plain difference + lattice vector and a shortest image (always for orthogonal boxes, under the half-height condition for triclinic ones), move_inside_box / fractions / unit-cell conversions mutually inverse, remove_pbc restoring molecules with the centroid in the box. Every expected value is compared with the real functions in all documented array shapes; systems of up to 20 atoms and 3 models are recorded and re-computed by TLC.",
+    "level_text": "TLC enumerates four-atom configurations with all bond vectors in {-1,0,1}^3 (wrapped across eleven periodic boxes by lattice shifts), all displacements in a cube against twelve boxes (orthorhombic, rotated-orthogonal, left-handed, heavily skewed, triclinic with every zero/non-zero combination of the three tilts), unit cells with cosines 0,+-1/2, wrapped molecules (chains, stars, interleaved and multiple molecules; every atom shifted independently, and every subset of atoms lying beyond each of the six faces of cubic, anisotropic and elongated boxes whose long axis is a, b or c) point sets under translate/rotate/rotate_centered/rotate_about_axis/align_vectors, and calls of displacement/distance/angle/dihedral with operands of every combination of dimensionality ((3,), (n,3), (m,n,3): 9, 9, 27 and 81 combinations) and kind (ndarray, Atom/AtomArray/AtomArrayStack) in every argument position - without box, with one box and with per-model boxes, positions wrapped by lattice vectors - and of index_* on arrays and stacks with every order of the argument positions and every way the box is passed; and checks: the broadcast result entry by entry (subtraction order chosen by dimensionality = textbook, reversed argument order, wrapping), index-based = coordinate-based, code-shaped = textbook definitions, invariance under the 24 lattice rotations x translations, sign flip of the dihedral under the 24 rotoreflections, periodic displacement = plain difference + lattice vector and a shortest image (always for orthogonal boxes, under the half-height condition for triclinic ones), move_inside_box / fractions / unit-cell conversions mutually inverse, remove_pbc restoring molecules with the centroid in the box. Every expected value is compared with the real functions in all documented array shapes; systems of up to 20 atoms and 3 models and calls with randomly mixed operand dimensionality are recorded and re-computed by TLC.",
     "level_note": "Restricted to integer / dyadic coordinates and boxes and to the 48 elements of the cube group: invariance under general rotations and every effect of float rounding are NOT decided. Angles are compared through cos / atan2 of TLC's exact integers (tolerance 2e-5 on the cosine, 2e-4 rad on dihedrals, 1e-4 on coordinates). Periodic angle/dihedral values are compared only where the minimum images are unique (ties are unspecified). orient_principal_components and dihedral_backbone are not modelled. Trusted: TLC, the TLA+ value parser, numpy.",
 }
 
@@ -409,8 +414,135 @@ def do_xform(R, pay, out):
             R.bad(kind, e.tolist(), np.asarray(g).tolist())
 
 
+# --------------------------------------------------------------------------- "shapes" / "index"
+def _operand(coords, rank, kind, dt):
+    """Operand of the given rank as ndarray (dtype dt) or as Atom / AtomArray / AtomArrayStack."""
+    np = _np()
+    import biotite.structure as struc
+
+    c = _arr(coords, dt)
+    if c.ndim != rank or c.shape[-1] != 3:
+        raise RuntimeError(f"operand of rank {rank} has shape {c.shape}")
+    if kind == "nd":
+        return c
+    if rank == 1:
+        return struc.Atom(c.astype(np.float32))
+    if rank == 2:
+        a = struc.AtomArray(c.shape[0])
+    else:
+        a = struc.AtomArrayStack(c.shape[0], c.shape[1])
+    a.coord = c.astype(np.float32)
+    return a
+
+
+def _box_arg(ba, dt):
+    np = _np()
+    if not ba:
+        return None
+    if ba[0] == "one":
+        return _arr(ba[1], dt)
+    return np.stack([_arr(B, dt) for B in ba[1]])
+
+
+def compare_entries(R, fn, got, rank, entries, lead=()):
+    """got: the array returned by the library; entries[mi][ai] = [value, specified, defined] from
+    TLC; rank = rank of the result according to the specification.  Returns the number of
+    entries whose value was compared."""
+    np = _np()
+    got = np.asarray(got, dtype=float)
+    m, n = len(entries), len(entries[0])
+    shape = {1: (), 2: (n,), 3: (m, n)}[rank] + ((3,) if fn == "displacement" else ())
+    if got.shape != shape:
+        R.bad(fn, {"shape": list(shape)}, {"shape": list(got.shape)}, relation="shape of the result")
+        return 0
+    compared = 0
+    wrong = []        # (call, expected, observed, where): one record per case, the others counted
+    for mi in range(m):
+        for ai in range(n):
+            val, specified, defined = entries[mi][ai]
+            o = got[(mi, ai)[3 - rank:]] if rank > 1 else got
+            if not (specified and defined):
+                continue
+            compared += 1
+            where = {"model": mi, "atom": ai}
+            if fn == "displacement":
+                if not _close(o, val):
+                    wrong.append((fn, val, o.tolist(), where))
+            elif fn == "distance":
+                if not (math.isfinite(float(o)) and abs(float(o) ** 2 - val) <= 1e-3):
+                    wrong.append((fn, {"d2": val}, float(o) ** 2, where))
+            elif fn == "angle":
+                c = val[0] / math.sqrt(val[1])
+                o = float(o)
+                if not (math.isfinite(o) and 0 <= o <= math.pi + 1e-6 and abs(math.cos(o) - c) <= 2e-5):
+                    wrong.append((fn + "(cos)", c, math.cos(o) if math.isfinite(o) else repr(o), where))
+            else:
+                phi = math.atan2(val[0] * math.sqrt(val[2]), val[1])
+                o = float(o)
+                if not (math.isfinite(o) and _angdiff(o, phi) <= 2e-4):
+                    wrong.append((fn, phi, o, where))
+    if wrong:
+        call, exp, obs, where = wrong[0]
+        R.bad(call, exp, obs, entries_wrong=len(wrong), entries_compared=compared, **where)
+    return compared
+
+
+def do_shapes(R, pay, out):
+    np = _np()
+    import biotite.structure as struc
+
+    fn, forms, _wi, ba = pay
+    coords, rank, entries = out
+    dt = np.float32 if R.idx % 2 == 0 else np.float64
+    R.calls += 1
+    if fn == "centroid":
+        got = np.asarray(struc.centroid(_operand(coords[0], forms[0][0], forms[0][1], dt)), dtype=float)
+        exp = np.array([[x / e[1] for x in e[0]] for e in entries])
+        if rank == 2:
+            exp = exp[0]
+        if not _close(got, exp):
+            R.bad(fn, exp.tolist(), got.tolist())
+        R.compared = len(entries)
+        return
+    ops = [_operand(coords[j], forms[j][0], forms[j][1], dt) for j in range(len(forms))]
+    got = getattr(struc, fn)(*ops, box=_box_arg(ba, dt))
+    R.compared = compare_entries(R, fn, got, rank, entries)
+
+
+def do_index(R, pay, out):
+    np = _np()
+    import biotite.structure as struc
+
+    fn, form, _wi, bm, ba, _perm = pay
+    coords, rows, entries, decoy = out
+    rank, kind = form
+    dt = np.float32 if R.idx % 2 == 0 else np.float64
+    atoms = _operand(coords, rank, kind, dt)
+    box = _box_arg(ba, dt)
+    m = len(coords) if rank == 3 else 1
+
+    def own(b):       # the box attribute: (3,3) for an AtomArray, (m,3,3) for a stack
+        b = np.asarray(b, dtype=np.float32)
+        return b if rank == 2 else (b if b.ndim == 3 else np.stack([b] * m))
+
+    kw = {}
+    if bm == "param":
+        kw = {"periodic": True, "box": box}
+    elif bm == "own":
+        atoms.box = own(box)
+        kw = {"periodic": True}
+    elif bm == "over":    # documented: an explicit `box` is used *instead of* the box attribute of `atoms`
+        atoms.box = own(_arr(decoy, dt))
+        kw = {"periodic": True, "box": box}
+    idx = np.array(rows, dtype=np.int64 if R.idx % 4 < 2 else np.int32) - 1
+    R.calls += 1
+    got = getattr(struc, "index_" + fn)(atoms, idx, **kw)
+    # the result has one entry per row (and model)
+    R.compared = compare_entries(R, fn, got, rank, entries)
+
+
 DO = {"geom": do_geom, "vecbox": do_vecbox, "cell": do_cell, "boxcell": do_boxcell,
-      "unwrap": do_unwrap, "xform": do_xform}
+      "unwrap": do_unwrap, "xform": do_xform, "shapes": do_shapes, "index": do_index}
 
 
 def _short_face_cut(case):
@@ -450,6 +582,7 @@ def exec_group(item):
     mism = []
     calls = 0
     diag = 0
+    compared = 0
     np = _np()
     for k, (case, out) in enumerate(states):
         idx = item["lo"] + k
@@ -465,7 +598,8 @@ def exec_group(item):
         mism += R.mm
         calls += R.calls
         diag += getattr(R, "diag", 0)
-    return {"mismatch": mism, "calls": calls, "cases": len(states), "diag": diag}
+        compared += getattr(R, "compared", 0)
+    return {"mismatch": mism, "calls": calls, "cases": len(states), "diag": diag, "compared": compared}
 
 
 # --------------------------------------------------------------------------- S3 recording
@@ -485,6 +619,9 @@ S3_UNWRAP_BOXES = [
 ]   # all inside GeomOps!Dom_DyadicBox (power-of-two determinant), like S3_BOXES
 S3_CUTS = [[1, 0, 0], [-1, 0, 0], [0, 1, 0], [0, -1, 0], [0, 0, 1], [0, 0, -1], [1, 1, 0], [0, -1, 1], [-1, 1, -1]]
 KK = 10000
+# argument positions (0-based) between which a function forms a displacement (GeomOps!BondPairs)
+_BOND_PAIRS = {"displacement": [(0, 1)], "distance": [(0, 1)], "angle": [(0, 1), (2, 1)],
+               "dihedral": [(0, 1), (1, 2), (2, 3)]}
 
 
 def _enclose(c):
@@ -519,6 +656,100 @@ def _guarded(fn):
     return wrapper
 
 
+# boxes of the recorded mixed-dimensionality calls (edges >= 8: positions in 0..3 have unique minimum
+# images shorter than half the box height); per-model boxes: every row of the LAST box is a lattice
+# vector of all the others, the positions are wrapped by lattice vectors of the last box
+S3_BCAST_BOXES = [
+    [[8, 0, 0], [0, 8, 0], [0, 0, 16]], [[16, 0, 0], [8, 16, 0], [0, 0, 16]], [[16, 0, 0], [0, 8, 0], [0, 0, 8]],
+    [[16, 0, 0], [0, 16, 0], [8, 0, 16]], [[0, 8, 0], [8, 0, 0], [0, 0, 8]], [[16, 0, 0], [0, 16, 0], [0, 8, 16]],
+]
+S3_BCAST_PER = [
+    [[[8, 0, 0], [0, 8, 0], [0, 0, 16]], [[16, 0, 0], [8, 16, 0], [0, 0, 16]], [[32, 0, 0], [16, 32, 0], [0, 0, 32]]],
+    [[[16, 0, 0], [0, 16, 0], [8, 0, 16]], [[8, 0, 0], [0, 8, 0], [0, 0, 8]], [[32, 0, 0], [0, 32, 0], [16, 0, 32]]],
+]
+
+
+def _bcast_event(rng, dt):
+    """One call of displacement / distance / angle / dihedral with operands of random
+    dimensionality (rank 1..3), kind (ndarray / Atom, AtomArray, AtomArrayStack) and order."""
+    import biotite.structure as struc
+
+    from harness.tlabind.pool import progress
+
+    np = _np()
+    fn = rng.choice(["displacement", "distance", "angle", "angle", "dihedral", "dihedral"])
+    ar = len(_BOND_PAIRS[fn]) + 1
+    m, n = rng.randint(2, 3), rng.randint(1, 5)
+    ranks = [rng.randint(1, 3) for _ in range(ar)]
+    kinds = [rng.choice(["nd", "obj"]) for _ in range(ar)]
+    R = max(ranks)
+    u = rng.random()
+    if u < 0.35:
+        bo, wrap = [], None
+    elif u < 0.75 or R < 3:
+        B = rng.choice(S3_BCAST_BOXES)
+        bo, wrap = ["one", B], B
+    else:
+        per = rng.choice(S3_BCAST_PER)
+        boxes = [per[rng.randrange(2)] for _ in range(m - 1)] + [per[2]]
+        bo, wrap = ["per", boxes], per[2]
+
+    def point():
+        p = [rng.randint(0, 3) for _ in range(3)]
+        if wrap is not None:
+            kv = [rng.randint(-1, 1) for _ in range(3)]
+            p = [p[i] + sum(kv[r] * wrap[r][i] for r in range(3)) for i in range(3)]
+        return p
+
+    ops = []
+    for r in ranks:
+        if r == 1:
+            ops.append([1, point()])
+        elif r == 2:
+            ops.append([2, [point() for _ in range(n)]])
+        else:
+            ops.append([3, [[point() for _ in range(n)] for _ in range(m)]])
+    ev = {"op": "bcast", "fn": fn, "ops": ops, "bo": bo, "kinds": kinds, "exc": 0, "rank": 0, "got": []}
+    progress(ev)
+    args = [_operand(c, r, k, dt) for (r, c), k in zip(ops, kinds)]
+    try:
+        with np.errstate(all="ignore"):
+            got = np.asarray(getattr(struc, fn)(*args, box=_box_arg(bo, dt)), dtype=float)
+    except Exception as e:
+        if not _from_biotite(e):
+            raise
+        ev["exc"], ev["error"] = 1, repr(e)
+        return ev
+    lead = got.ndim - (1 if fn == "displacement" else 0)      # leading axes: (), (n,), (m,n)
+    ev["rank"] = lead + 1
+    g = got.reshape((1,) * (2 - lead) + got.shape) if lead <= 2 else got.reshape((1, 1) + got.shape)
+    rows = []
+    for mi in range(g.shape[0]):
+        row = []
+        for ai in range(g.shape[1]):
+            o = g[mi][ai]
+            if fn == "displacement":
+                di, exact = _rint(o)
+                row.append(di if exact and np.shape(o) == (3,) else [99, 99, 99])
+            elif fn == "distance":
+                x = float(o) if np.ndim(o) == 0 else float("nan")
+                d2 = int(round(x * x)) if math.isfinite(x) else -1
+                row.append(d2 if math.isfinite(x) and abs(x * x - d2) < 1e-3 else -1)
+            elif fn == "angle":
+                x = float(o) if np.ndim(o) == 0 else float("nan")
+                row.append(_enclose(math.cos(x)) if math.isfinite(x) and -1e-6 <= x <= math.pi + 1e-6 else [2 * KK, -2 * KK])
+            else:
+                x = float(o) if np.ndim(o) == 0 else float("nan")
+                if not math.isfinite(x):
+                    row.append([2 * KK, -2 * KK, 0])
+                else:
+                    sn = math.sin(x)
+                    row.append(_enclose(math.cos(x)) + [0 if abs(sn) < 1e-3 else (1 if sn > 0 else -1)])
+        rows.append(row)
+    ev["got"] = rows
+    return ev
+
+
 @_guarded
 def gen_trace(item):
     import warnings
@@ -534,7 +765,9 @@ def gen_trace(item):
     for _ in range(item["length"]):
         k = rng.random()
         dt = rng.choice([np.float32, np.float64])
-        if k < 0.6:
+        if k >= 0.8:
+            events.append(_bcast_event(rng, dt))
+        elif k < 0.48:
             n = rng.randint(4, 20)
             P = [[rng.randint(-3, 4) for _ in range(3)] for _ in range(n)]
             bo = [rng.choice(S3_BOXES)] if rng.random() < 0.6 else []
@@ -580,7 +813,7 @@ def gen_trace(item):
                            "triples": [[i + 1 for i in t] for t in tri], "quads": [[i + 1 for i in q] for q in quad],
                            "disp": di if exact and same else [[99, 99, 99]] * len(pairs),
                            "d2": d2 if d2ok else [-1] * len(pairs), "cosA": cosA, "dih": dd, "models": m})
-        elif k < 0.8:
+        elif k < 0.62:
             n = rng.randint(1, 12)
             P = [[rng.randint(-6, 6) for _ in range(3)] for _ in range(n)]
             e = [rng.randrange(4) for _ in range(3)]
@@ -636,11 +869,26 @@ def gen_trace(item):
 
 # --------------------------------------------------------------------------- verdict plumbing
 def classify(mm):
-    """Known finding C15-angle-collinear-nan: angle() of exactly collinear atoms (textbook value 0
+    """Known findings.  C15-angle-collinear-nan: angle() of exactly collinear atoms (textbook value 0
     or pi, cos = +-1) is NaN because the dot product of the float32-normalised vectors exceeds 1."""
     if mm.get("kind") == "case" and str(mm.get("call", "")).endswith("angle(cos)"):
         if mm.get("expected") in (1.0, -1.0) and mm.get("observed") == "nan":
             return "C15-angle-collinear-nan"
+    # Known finding C15-permodel-box-single-positions: angle()/dihedral() with per-model boxes
+    # (m,3,3) raise ValueError when two neighbouring arguments are both single positions (3,)
+    if (mm.get("kind") == "case" and mm.get("case_kind") == "shapes" and mm.get("call") == "exception"
+            and str(mm.get("observed", "")).startswith("ValueError('The truth value of an array")):
+        fn, forms, _wi, ba = mm["case"]
+        if (fn in ("angle", "dihedral") and ba and ba[0] == "per"
+                and any(forms[i][0] == 1 and forms[j][0] == 1 for i, j in _BOND_PAIRS[fn])):
+            return "C15-permodel-box-single-positions"
+    if mm.get("kind") == "event" and mm.get("what") == "exception":
+        ev = mm.get("event", {})
+        fn, bo, ops = ev.get("fn"), ev.get("bo"), ev.get("ops", [])
+        if (ev.get("op") == "bcast" and fn in ("angle", "dihedral") and bo and bo[0] == "per"
+                and str(ev.get("error", "")).startswith("ValueError('The truth value of an array")
+                and any(ops[i][0] == 1 and ops[j][0] == 1 for i, j in _BOND_PAIRS[fn])):
+            return "C15-permodel-box-single-positions"
     if mm.get("kind") == "event" and mm.get("what") == "angle":
         exp, ev, pos = mm.get("expected"), mm.get("event", {}), mm.get("position")
         if (isinstance(exp, list) and len(exp) == 2 and exp[0] * exp[0] == exp[1] and pos
@@ -676,6 +924,7 @@ def run(ctx):
         "Dom_MinImage: minimality of the periodic displacement is required for orthogonal boxes always and for triclinic boxes only when the shortest image is shorter than half the smallest box height",
         "periodic angles / dihedrals / displacement vectors are compared only where the minimum images involved are unique (ties between equally short images are unspecified)",
         "Dom_Angle / Dom_Dihedral: no zero-length bond vector / no collinear triple (the value is undefined there)",
+        "Dom_Operands / Dom_BoxArg: operands of one call agree in atom count and model count; per-model boxes (m,3,3) only when an operand comprises multiple models (documented)",
         "Dom_Compact: molecules passed to remove_pbc have all intra-molecular displacements at their unique minimum image (the property's own 'within minimum-image distance')",
         "unit cells: lengths 1..5, cosines 0, +-1/2, positive volume",
         "tolerances: 1e-4 on coordinates, 2e-5 on cosines, 2e-4 rad on dihedral angles, 1e-3 on cell parameters",
@@ -713,12 +962,61 @@ def run(ctx):
     ctx.cov["unwrap_short_face_cut_classes"] = len(cuts)
     if len({(k[0], k[1], k[2]) for k in cuts}) < 12:
         raise Vacuity(f"molecules cut by a short face of an elongated box: only the classes {sorted(cuts)}")
-    ctx.cov["rule"] = "a case is non-trivial when it is periodic with a non-zero wrap, a rotation other than the identity, or a molecule shifted across a box face"
+    # the class "operands of every combination of dimensionality, in every argument position"
+    arity = {"displacement": 2, "distance": 2, "angle": 3, "dihedral": 4}
+    combos = {fn: set() for fn in arity}
+    kinds_seen = {fn: set() for fn in arity}
+    boxmodes = {fn: set() for fn in arity}
+    high_first = 0
+    entries_total = entries_comparable = 0
+    index_forms = set()
+    for c, o in done:
+        if c[0] == "shapes" and c[1][0] in arity:
+            fn, forms, _wi, ba = c[1]
+            ranks = tuple(f[0] for f in forms)
+            combos[fn].add(ranks)
+            kinds_seen[fn].add(tuple(f[1] for f in forms))
+            boxmodes[fn].add(ba[0] if ba else "none")
+            high_first += any(ranks[i] > ranks[j] for i, j in _BOND_PAIRS[fn])
+        elif c[0] == "index":
+            fn, form, _wi, bm, ba, perm = c[1]
+            index_forms.add((fn, form[0], form[1], bm, ba[0] if ba else "none", tuple(perm) == tuple(sorted(perm))))
+        if c[0] in ("shapes", "index") and c[1][0] in arity:
+            for row in o[0][2]:
+                for e in row:
+                    entries_total += 1
+                    entries_comparable += bool(e[1] and e[2])
+    ctx.cov["shape_rank_combinations"] = {fn: len(v) for fn, v in combos.items()}
+    ctx.cov["shape_cases_with_a_higher_dimensional_operand_first"] = high_first
+    ctx.cov["shape_index_forms"] = len(index_forms)
+    ctx.cov["shape_entries"] = entries_total
+    ctx.cov["shape_entries_specified_and_defined"] = entries_comparable
+    for fn, ar in arity.items():
+        if len(combos[fn]) != 3 ** ar:
+            raise Vacuity(f"{fn}: only {len(combos[fn])} of {3 ** ar} combinations of operand dimensionality")
+        if boxmodes[fn] != {"none", "one", "per"}:
+            raise Vacuity(f"{fn}: box arguments {sorted(boxmodes[fn])}")
+        if not ({("nd",) * ar, ("obj",) * ar} < kinds_seen[fn]):
+            raise Vacuity(f"{fn}: operand kinds {sorted(kinds_seen[fn])}")
+        for r in (2, 3):
+            for k in ("nd", "obj"):
+                need = {"none", "param"} | ({"own", "over"} if k == "obj" else set())
+                have = {f[3] for f in index_forms if f[:3] == (fn, r, k)}
+                if have != need:
+                    raise Vacuity(f"index_{fn} on rank {r} {k}: box modes {sorted(have)}")
+        if not any(f[0] == fn and not f[5] for f in index_forms):
+            raise Vacuity(f"index_{fn}: argument positions never permuted")
+    if not high_first or 10 * entries_comparable < 9 * entries_total:
+        raise Vacuity(f"operand shapes: {high_first} cases with the higher-dimensional operand first, "
+                      f"{entries_comparable} of {entries_total} entries specified and defined")
+    ctx.cov["rule"] = "a case is non-trivial when it is periodic with a non-zero wrap, a rotation other than the identity, a molecule shifted across a box face, operands of different dimensionality, or an index call that is periodic or permutes the argument positions"
     ctx.nontrivial += sum(1 for c, o in done if
                           (c[0] == "geom" and (c[1][4] or c[1][6] != 1)) or
                           (c[0] == "vecbox" and o[0][0] != c[1][0]) or
                           (c[0] == "unwrap" and any(any(x) for x in c[1][2])) or
-                          (c[0] == "xform" and c[1][1] != "translate") or c[0] in ("cell", "boxcell"))
+                          (c[0] == "xform" and c[1][1] != "translate") or c[0] in ("cell", "boxcell") or
+                          (c[0] == "shapes" and len({f[0] for f in c[1][1]}) > 1) or
+                          (c[0] == "index" and (c[1][4] or list(c[1][5]) != sorted(c[1][5]))))
     d = tlc.scratch_dir("c15")
     per = 120
     items = []
@@ -731,6 +1029,7 @@ def run(ctx):
     calls = sum(r.get("calls", 0) for r in results)
     ncases = sum(r.get("cases", 0) for r in results)
     diag = sum(r.get("diag", 0) for r in results)
+    ctx.cov["s2_shape_entries_compared"] = sum(r.get("compared", 0) for r in results)
     ctx.traces_validated += ncases
     ctx.evaluations += calls
     ctx.cov["s2_cases"] = ncases
@@ -743,7 +1042,7 @@ def run(ctx):
     ctx.log(f"S2: {ncases} cases, {calls} calls compared with biotite")
     # ---- S3
     ntr = 40 if quick else 700
-    length = 10 if quick else 16
+    length = 12 if quick else 18
     seeds = [ctx.rng.randrange(1 << 30) for _ in range(ntr)]
     tres = helpers.run_pool(ctx, "harness.drivers.c15:gen_trace", [{"seed": s, "length": length} for s in seeds],
                             stage="S3", item_timeout=120)
@@ -763,7 +1062,12 @@ def run(ctx):
     ctx.cov["s3_unwrap_events_in_elongated_boxes"] = sum(
         1 for t in traces for e in t if e["op"] == "unwrap"
         and 4 * min(sum(v * v for v in r) for r in e["B"]) <= max(sum(v * v for v in r) for r in e["B"]))
-    ctx.cov["s3_ops"] = {op: sum(1 for t in traces for e in t if e["op"] == op) for op in ("measure", "rigid", "unwrap")}
+    ctx.cov["s3_ops"] = {op: sum(1 for t in traces for e in t if e["op"] == op) for op in ("measure", "rigid", "unwrap", "bcast")}
+    ctx.cov["s3_bcast_events_with_a_higher_dimensional_operand_first"] = sum(
+        1 for t in traces for e in t if e["op"] == "bcast"
+        and any(e["ops"][i][0] > e["ops"][j][0] for i, j in _BOND_PAIRS[e["fn"]]))
+    if not ctx.cov["s3_bcast_events_with_a_higher_dimensional_operand_first"]:
+        raise Vacuity("S3: no recorded call with a higher-dimensional operand first")
     ctx.nontrivial += sum(1 for t in traces if any(e["op"] == "measure" and e["bo"] for e in t))
     if traces:
         ctx.sample({"s3_event": traces[0][0]})
@@ -776,6 +1080,11 @@ def run(ctx):
             for e in tr:
                 if e["op"] == "unwrap" and e["gotR"]:
                     e["gotR"][0][0] += 1          # no lattice vector any more
+                    return True
+        if len(calls) == 2:                      # the second one: a call with mixed dimensionality
+            for e in tr:
+                if e["op"] == "bcast" and not e["exc"]:
+                    e["rank"] = e["rank"] % 3 + 1     # another dimensionality of the result
                     return True
         for e in tr:
             if e["op"] == "rigid" and e["got"]:
@@ -790,5 +1099,7 @@ def run(ctx):
         return False
 
     with_unwrap = [t for t in traces if any(e["op"] == "unwrap" for e in t)][:1]
-    helpers.binding_selftest(ctx, with_unwrap + [t for t in traces if t not in with_unwrap][:2], corrupt)
+    with_bcast = [t for t in traces if t not in with_unwrap and any(e["op"] == "bcast" and not e["exc"] for e in t)][:1]
+    chosen = with_unwrap + with_bcast
+    helpers.binding_selftest(ctx, chosen + [t for t in traces if t not in chosen][:3 - len(chosen)], corrupt)
     ctx.log(f"S3: {len(traces)} traces / {nev} events validated by TLC, {nmm} mismatches")
